@@ -29,6 +29,7 @@ import (
 	"github.com/elastos/Elastos.ELA/core/types/functions"
 	"github.com/elastos/Elastos.ELA/core/types/interfaces"
 	"github.com/elastos/Elastos.ELA/elanet/bloom"
+	"github.com/elastos/Elastos.ELA/elanet/filter"
 	"github.com/elastos/Elastos.ELA/p2p/msg"
 )
 
@@ -127,6 +128,36 @@ func doNMB(t []string) string {
 	}
 	blk := &types.Block{Header: fixHdr, Transactions: txs}
 	m, matched := bloom.NewMerkleBlock(blk, f)
+	// the path the server takes (elanet/server.go): filter.Filter of type FTBloom loaded from the wire form of
+	// the same bloom filter, filter.NewMerkleBlock over the block's transactions
+	{
+		f0 := bloom.NewFilter(uint32(elements), uint32(tweak), float64(ppm)/1e6)
+		lb := new(bytes.Buffer)
+		if err := f0.GetFilterLoadMsg().Serialize(lb); err != nil {
+			panic("harness: filterload: " + err.Error())
+		}
+		sf := filter.New(func(typ uint8) filter.TxFilter {
+			if typ == filter.FTBloom {
+				return bloom.NewTxFilter()
+			}
+			return nil
+		})
+		if err := sf.Load(&msg.TxFilterLoad{Type: filter.FTBloom, Data: lb.Bytes()}); err != nil {
+			return "server-path: " + err.Error()
+		}
+		for i := range txs {
+			if t[5][i] == '1' {
+				if err := sf.Add(ids[i][:]); err != nil {
+					return "server-path: " + err.Error()
+				}
+			}
+		}
+		m2, matched2 := filter.NewMerkleBlock(txs, sf)
+		if m2.Transactions != m.Transactions || !bytes.Equal(m2.Flags, m.Flags) || catHex(m2.Hashes) != catHex(m.Hashes) ||
+			fmt.Sprint(matched2) != fmt.Sprint(matched) {
+			return fmt.Sprintf("copies-differ filter: %d %s %s %v", m2.Transactions, hx.Hex(m2.Flags), catHex(m2.Hashes), matched2)
+		}
+	}
 	bits := make([]byte, len(txs))
 	for i := range bits {
 		bits[i] = '0'
@@ -252,12 +283,28 @@ func message(t []string) msg.MerkleBlock {
 	}
 }
 
+// doCheck runs elanet/bloom.CheckMerkleBlock and its copy elanet/filter.CheckMerkleBlock (the package the
+// server builds merkle blocks with); both must give the same answer.
 func doCheck(m msg.MerkleBlock) string {
-	ids, err := bloom.CheckMerkleBlock(m)
-	if err != nil {
-		return classify(err)
+	one := func(f func(msg.MerkleBlock) ([]*common.Uint256, error), m msg.MerkleBlock) (out string) {
+		defer func() {
+			if e := recover(); e != nil {
+				out = "panic"
+			}
+		}()
+		m.Hashes = append([]*common.Uint256{}, m.Hashes...)
+		m.Flags = append([]byte{}, m.Flags...)
+		ids, err := f(m)
+		if err != nil {
+			return classify(err)
+		}
+		return "ok " + catHex(ids)
 	}
-	return "ok " + catHex(ids)
+	a, b := one(bloom.CheckMerkleBlock, m), one(filter.CheckMerkleBlock, m)
+	if a != b {
+		return "copies-differ bloom=" + strings.ReplaceAll(a, " ", ":") + " filter=" + strings.ReplaceAll(b, " ", ":")
+	}
+	return a
 }
 
 func doBranch(m msg.MerkleBlock, txid common.Uint256) string {
